@@ -115,6 +115,15 @@ func c11Positions(c *Ctx, idx int) {
 			nontriv(c.c11Check(f, doc), f)
 		}
 	}
+	for _, w := range []int{22, 23, 30, 43, 64, 65, 100, 130} {
+		for _, pc := range []string{"-", "é", "✓", "€", "𝌆", "\ufffd"} {
+			f := fmt.Sprintf("pad_left(s, `%d`, %s)", w, ref.RawString(pc))
+			if (w+len(pc))%2 == 0 {
+				f = fmt.Sprintf("pad_right(s, `%d`, %s)", w, ref.RawString(pc))
+			}
+			nontriv(c.c11Check(f, doc), f)
+		}
+	}
 	for _, f := range []string{"length(s)", "reverse(s)", "s[::-1]", "reverse(s) == s[::-1]", "split(s, '')", "length(split(s, '')) == length(s)", "join('', split(s, '')) == s", "find_first(s, sub)", "find_last(s, sub)", "contains(s, sub)", "starts_with(s, sub)", "ends_with(s, sub)", "replace(s, sub, 'é𝌆')", "split(s, sub)", "trim(s, sub)", "trim_left(s, sub)", "trim_right(s, sub)", "pad_left(s, length(s))", "[s, sub] | sort(@)", "max([s, sub])", "min([s, sub])", "s == sub", "join(sub, [s, s])"} {
 		nontriv(c.c11Check(f, doc), f)
 	}
